@@ -99,6 +99,9 @@ func (te *TypeEnv) structOf(t types.Type) *structInfo {
 		f := st.Field(i)
 		fsrt := te.SortOf(f.Type())
 		acc := fmt.Sprintf("%s.%s", name, f.Name())
+		if f.Name() == "_" || f.Name() == "" {
+			acc = fmt.Sprintf("%s._%d", name, i)
+		}
 		si.fields = append(si.fields, acc)
 		si.fsorts = append(si.fsorts, fsrt)
 		fs = append(fs, fmt.Sprintf("(%s %s)", quoteSym(acc), fsrt.Name))
